@@ -30,7 +30,7 @@ func init() {
 	core.Register(&core.Rule{
 		Name: "R-LOOKAHEAD",
 		Doc: "An engine that evaluates assertions sees the byte behind the place where it stops: in packages nfa, meta, dfa/lazy and the root package, a matching function of the module (any function or method with a []byte parameter outside the byte-search packages simd, prefilter and literal) is never handed a re-slice of the caller's haystack parameter that has an upper bound (h[:end], h[lo:end]) - neither directly nor after the parameter was overwritten with such a re-slice. The assertions \\b, \\B, $ and (?m)$ evaluated at the cut see end-of-text instead of the real next byte: a higher-priority alternative is accepted wrongly and other capture groups are reported over the same span ((?:(a+)\\b|(a)) on 'aab' restricted to [0,1]). The counterpart of R-LOOPARG (which guards the low bound). Functions not reachable from a search entry point are exempt; exemptions by name carry the reason. Necessary for C14 (exact-or-declined engines), C02/C03 (spans and captures).",
-		Min: 5, NeedSSA: true,
+		Min: 3, NeedSSA: true,
 		Run: func(p *core.Prog) *core.RuleResult {
 			res := &core.RuleResult{}
 			kc := core.NewKeyCounter()
